@@ -189,7 +189,11 @@ func (g *DependencyGraph) AddProviderDeferred(provider Provider) error {
 
 	// Add edges based on dependencies
 	providerDeps := provider.GetDependencies()
-	if len(providerDeps) > 0 {
+	if len(providerDeps) == 0 {
+		// Replacing a provider with one that has no dependencies drops the old edges
+		node.Dependencies = node.Dependencies[:0]
+		delete(g.edges, nodeKey)
+	} else {
 		dependencies := make([]NodeKey, 0, len(providerDeps))
 		for _, dep := range providerDeps {
 			depKey := NodeKey{
